@@ -19,4 +19,15 @@ REGISTRY = {
     },
 }
 
+REGISTRY["C13"] = {
+    "harness": {"kind": "gotest", "go": "go1.26.8", "pkg": "./c13sync", "bin": "c13.test", "run": "TestC13"},
+    "level_text": "Theorems (Lean 4, kernel-checked) over ALL arrival patterns of any length: per-kind spacing >= interval (reload and reconcile limiters), coalescing (never more runs than notifications; an arrival while pending is a no-op), liveness (every notification is followed by a run within wait-before-update or exactly one interval after an actual earlier run). The model (limiter functions + 'earliest deadline per item' delaying queue) is tied to the real limiters and the real work queue by a differential run under testing/synctest (virtual clock, exact timestamps): exhaustive subsets of a 12-point grid around the interval boundary plus random bursts/gaps; the Spec is also evaluated on the observed timestamps.",
+    "level_note": "Trusted: Lean kernel, harness, client-go delaying queue modelled as 'earliest deadline per item, de-duplicated' (validated by the differential run, not proved). Not modelled: scheduling latency, run duration, the error-retry path (AddAfter bypasses the limiter by design). Arrivals that coincide exactly with a pending deadline are skipped (order undefined).",
+    "rule": "corpus; exhaustive subsets (<=4 quick / <=6 thorough) of a 12-point grid around multiples of the interval for the reload limiter; subsets of an 8-point grid x all item assignments for the reconcile limiter; random bursts/gaps/boundary arrivals for random intervals and waits from VERIF_SEED. non-trivial = at least two arrivals and no arrival/deadline tie; distinct = distinct input line",
+    "exhaustive": {"quick": False, "thorough": False},
+    "trusted": ["client-go workqueue semantics as modelled in HapVerif.C13 (arrive/fire)", "testing/synctest virtual clock (go1.26.8)"],
+    "modelled": ["client-go delaying queue = earliest deadline per item; run is instantaneous", "time.Time zero value = 'none'"],
+    "assumptions": ["reloads/reconciles succeed (the retry path uses AddAfter and deliberately bypasses the limiter)", "timers fire at their deadline (latency not modelled)"],
+}
+
 NOT_APPLICABLE = {}
